@@ -137,11 +137,17 @@ def extras(f):
     """two variations outside the enumerated product, derived deterministically from the configuration:
     hooks given on the command line instead of the config; a VCS tag newer than the config version"""
     idx = encode(f)
-    return {"hooks_via_cli": (idx // 7) % 2 == 1, "newer_tag": (idx // 11) % 3 == 0}
+    return {"hooks_via_cli": (idx // 7) % 2 == 1, "newer_tag": (idx // 11) % 3 == 0,
+            "how": ("patch", "set-version", "branch-scope")[(idx // 13) % 3]}
 
 
 def versions(f):
-    return ("1.2.5", "1.2.6") if extras(f)["newer_tag"] else ("1.2.3", "1.2.4")
+    ex = extras(f)
+    if ex["newer_tag"]:
+        return ("1.2.5", "1.2.6")
+    if ex["how"] == "branch-scope":
+        return ("1.0.0", "1.0.1")   # branch scope starts from the greatest reachable tag, not from the config
+    return ("1.2.3", "1.2.4")
 
 
 def build(f):
@@ -163,7 +169,15 @@ def build(f):
               '"a.txt" = ["version {version}"]', '"src/b.py" = [\'__version__ = "{version}"\']', ""]
     files = {"bumpver.toml": "\n".join(lines), "a.txt": "hello\nversion 1.2.3\nbye\n",
              "src/b.py": '# x\n__version__ = "1.2.3"\n', "other.txt": "unrelated\n"}
-    args = ["update", "--patch"]
+    # how the new version is requested: --patch, an explicit --set-version (uniqueness check over all tags),
+    # or --patch with tag scope `branch` (uniqueness check too)
+    how = ex["how"]
+    if how == "set-version":
+        args = ["update", "--set-version", versions(f)[1]]
+    elif how == "branch-scope":
+        args = ["update", "--patch", "--tag-scope", "branch"]
+    else:
+        args = ["update", "--patch"]
     args.append("--fetch" if f["fetch"] else "--no-fetch")
     for name, flag in (("cli_commit", "commit"), ("cli_tag", "tag-commit"), ("cli_push", "push")):
         if f[name] == 1:
@@ -201,6 +215,7 @@ def setup_fake(d, f, vcs):
         if f["remote"]:
             fake.set_out("remote", "git@example.org:x/y.git\n")
         fake.set_out("tag-list", "0.9.0\n1.0.0\nnot-a-version\n" + ("1.2.5\n" if extras(f)["newer_tag"] else ""))
+        fake.set_out("tag-merged", "0.9.0\n1.0.0\n" + ("1.2.5\n" if extras(f)["newer_tag"] else ""))
     else:
         fake.set_out("status", "M other.txt\n" if f["dirty"] else "")
         if f["remote"]:
@@ -208,6 +223,7 @@ def setup_fake(d, f, vcs):
         else:
             fake.set_out("remote", "")
         fake.set_out("tag-list", "tip 5:abcdef\n1.0.0 3:123456\n" + ("1.2.5 7:aaaaaa\n" if extras(f)["newer_tag"] else ""))
+        fake.set_out("tag-merged", "1.0.0\n" + ("1.2.5\n" if extras(f)["newer_tag"] else ""))
     return fake
 
 
